@@ -70,6 +70,46 @@ CLAIMED["C20"] = (
     "DESIGN.md section 2, C20",
 )
 
+PARTIAL_NOTE = (" PARTIAL CLAIM: decides the named structural clauses (necessary conditions of the property) for all paths / call "
+                "sites; the behavioural property itself quantifies over runtime values and is not decided by this technique.")
+CLAIMED["C16"] = (
+    "class-scope name resolution of parameter defaults, dead-parameter (def-use order) analysis, sibling and table agreement",
+    "Static checks of the constructor plumbing: no parameter default captures a class-scope descriptor, no parameter is "
+    "overwritten before it is read, the four classmethod constructors agree on resolver call / charge default / forwarded "
+    "keywords, the fixed-symmetry classes, utils.from_dense's table and the get_rand / rand_index chains agree with the "
+    "registry, index constructors sort charge tables and densification iterates sorted charges. Found and fixed two documented "
+    "call forms that failed on every input." + PARTIAL_NOTE,
+    "Does not decide that the arrays built are equal element by element, nor the dense<->block projection content.",
+    "DESIGN.md section 2, C16",
+)
+CLAIMED["C08"] = (
+    "method-table resolution through the MRO, wrapper shape checks, abstract interpretation over the key-set domain, operator table comparison",
+    "Static: every interface wrapper resolves to an existing method (no autoray dispatch cycle), forwards its parameters once in "
+    "order and is exported/registered under its name; the blockwise binary operation and multiply_diagonal are abstractly "
+    "interpreted over key regions {left-only, shared, right-only} with token values, giving exactly L / L-union-R / "
+    "L-intersect-R and fn(left,right) on the shared region; operator dunders match the (function, mode, in-place, operand order) "
+    "table. Found and fixed the log* recursion and the non-commutative product." + PARTIAL_NOTE,
+    "Numerical agreement with the dense operation is not decided. Assumes the blockwise code treats keys uniformly.",
+    "DESIGN.md section 2, C08",
+)
+CLAIMED["C10"] = (
+    "sibling agreement (cross-check) of FermionicArray.conj and .dagger by def-use extraction of five ingredients",
+    "Static cross-check: conj and dagger agree on new charge, conjugated labels, odd-global-sign condition, the set of legs the "
+    "dual-leg option selects (normalised to original direction by counting .conj() and negations), and apply exactly one kind "
+    "of reversal. Found and fixed the complementary leg set of dagger(phase_dual=True)." + PARTIAL_NOTE,
+    "The norm identities and involution on values are not decided.",
+    "DESIGN.md section 2, C10",
+)
+CLAIMED["C13"] = (
+    "dominating-guard analysis for negated-count subscripts; structural checks of the truncation bookkeeping",
+    "Static: every seq[-n] with a runtime count is dominated by a positivity test (seq[-0] wraps to the first element); the "
+    "absorb switch is exhaustive and scales each factor along its own bond axis; per-sector counts are produced and consumed in "
+    "one insertion order; U, s, VH are truncated with the same count, removed together, and share one new bond table. Found and "
+    "fixed the wrap-around that kept everything for cutoffs above the total weight." + PARTIAL_NOTE,
+    "Which singular values are kept, the error identity and monotonicity in numbers are not decided.",
+    "DESIGN.md section 2, C13",
+)
+
 PENDING = "check not built yet (construction in progress; see DESIGN.md section 2 for the planned static rule)"
 NOT_APPLICABLE = {
     "C07": "reshape content preservation and the axis-matching routine are arithmetic over runtime shapes; no clause is a "
